@@ -61,6 +61,7 @@ func init() {
 			if mode != "io" {
 				c.DFS(fmt.Sprintf("c01/%s/2c-1x1", mode), explore.Bounds{Preempt: c.Pick(1, 3), Dev: 1, POR: true})
 			}
+			c.DFS(fmt.Sprintf("c01/%s/ops", mode), explore.Bounds{Preempt: c.Pick(1, 2), Dev: 0, POR: true, MaxExec: c.Pick(2500, 100000)})
 			if mode == "ls" || mode == "ss" {
 				c.DFS(fmt.Sprintf("c01/%s/noise", mode), explore.Bounds{Preempt: c.Pick(2, 3), Dev: 1, POR: true, MaxExec: c.Pick(6000, 200000)})
 			}
@@ -149,6 +150,111 @@ func truncate(s string, n int) string {
 		return s[:n] + "…"
 	}
 	return s
+}
+
+// c01Ops: one CallTool is held in flight (its handler waits) while the same client issues every
+// other operation of the Connector interface, two of each list operation; every call must get its
+// own answer (the list answers name what is registered, the tool answer echoes its nonce).
+func c01Ops(prefix []int, mode string) explore.Outcome {
+	var viol []explore.Violation
+	obs := &hx.Log{}
+	k := func(s string) string { return s + ":" + mode }
+	res := vsched.Run(cfgFor(prefix), func() {
+		vsched.SetBranching(false)
+		r := NewRig(mode)
+		gate := &hx.Flag{}
+		calls := &hx.Log{}
+		r.RegisterTool(mcp.NewTool("slow", mcp.WithString("nonce")), func(ctx context.Context, req *mcp.CallToolRequest) (*mcp.CallToolResult, error) {
+			n, _ := req.Params.Arguments["nonce"].(string)
+			calls.Add("%s", n)
+			gate.Wait("slow tool waits for release")
+			return mcp.NewTextResult("echo:" + n), nil
+		})
+		r.RegisterPrompt(&mcp.Prompt{Name: "the-prompt"}, func(ctx context.Context, req *mcp.GetPromptRequest) (*mcp.GetPromptResult, error) {
+			return &mcp.GetPromptResult{Description: "prompt:" + req.Params.Arguments["nonce"], Messages: []mcp.PromptMessage{}}, nil
+		})
+		r.RegisterResource(&mcp.Resource{Name: "the-resource", URI: "res://r"}, func(ctx context.Context, req *mcp.ReadResourceRequest) (mcp.ResourceContents, error) {
+			return mcp.TextResourceContents{URI: "res://r", Text: "resource:r"}, nil
+		})
+		r.Start()
+		cl, err := r.Connect()
+		if err != nil {
+			viol = append(viol, V("setup-handshake-fails", "setting the scenario up with well-behaved peers fails: %v", err))
+			return
+		}
+		vsched.Quiesce()
+		vsched.SetBranching(true)
+		var slowText string
+		var slowErr error
+		slowDone := &hx.Flag{}
+		vsched.Go("slow-caller", func() {
+			rq := &mcp.CallToolRequest{}
+			rq.Params.Name = "slow"
+			rq.Params.Arguments = map[string]interface{}{"nonce": "S1"}
+			out, e := cl.CallTool(context.Background(), rq)
+			slowErr = e
+			slowText = TextOf(out)
+			slowDone.Set()
+		})
+		got := &hx.Log{}
+		othersDone := &hx.Flag{}
+		vsched.Go("others", func() {
+			ctx := context.Background()
+			for round := 0; round < 2; round++ {
+				if lr, e := cl.ListResources(ctx, &mcp.ListResourcesRequest{}); e != nil || len(lr.Resources) != 1 || lr.Resources[0].Name != "the-resource" {
+					got.Add("ListResources#%d: %v %v", round, lr, e)
+				}
+				if lt, e := cl.ListTools(ctx, &mcp.ListToolsRequest{}); e != nil || len(lt.Tools) != 1 || lt.Tools[0].Name != "slow" {
+					got.Add("ListTools#%d: %v %v", round, lt, e)
+				}
+				if lp, e := cl.ListPrompts(ctx, &mcp.ListPromptsRequest{}); e != nil || len(lp.Prompts) != 1 || lp.Prompts[0].Name != "the-prompt" {
+					got.Add("ListPrompts#%d: %v %v", round, lp, e)
+				}
+			}
+			gp := &mcp.GetPromptRequest{}
+			gp.Params.Name = "the-prompt"
+			gp.Params.Arguments = map[string]string{"nonce": "P1"}
+			if o, e := cl.GetPrompt(ctx, gp); e != nil || o.Description != "prompt:P1" {
+				got.Add("GetPrompt: %v %v", o, e)
+			}
+			rr := &mcp.ReadResourceRequest{}
+			rr.Params.URI = "res://r"
+			if o, e := cl.ReadResource(ctx, rr); e != nil || len(o.Contents) != 1 {
+				got.Add("ReadResource: %v %v", o, e)
+			}
+			othersDone.Set()
+		})
+		vsched.Quiesce()
+		if !othersDone.Get() {
+			viol = append(viol, V(k("ops-hang"), "with one CallTool in flight the other operations of the same client did not complete; blocked: %v", vsched.LiveThreads()))
+		}
+		for _, g := range got.Items() {
+			viol = append(viol, V(k("ops-wrong-answer"), "while a CallTool was in flight: %s", truncate(g, 300)))
+		}
+		if slowDone.Get() {
+			viol = append(viol, V(k("early-answer"), "the held CallTool returned (%q, %v) before its handler was released", slowText, slowErr))
+		}
+		gate.Set()
+		vsched.Quiesce()
+		if !slowDone.Get() {
+			viol = append(viol, V(k("call-hangs"), "the CallTool that was in flight during the other operations never completed; blocked: %v", vsched.LiveThreads()))
+		} else if slowErr != nil || slowText != "echo:S1" {
+			viol = append(viol, V(k("wrong-answer"), "the CallTool that was in flight during the other operations returned %q, %v (want echo:S1)", slowText, slowErr))
+		}
+		if n := len(calls.Items()); n != 1 {
+			viol = append(viol, V(k("handler-runs"), "the tool handler ran %d times for one call", n))
+		}
+		obs.Add("others=%v slow=%q", othersDone.Get(), slowText)
+	})
+	return finishOutcome(res, obs, viol, true)
+}
+
+func init() {
+	for _, mode := range []string{"sj", "ss", "sl", "sd", "ls", "io"} {
+		mode := mode
+		RegisterScenario(&Scenario{Name: "c01/" + mode + "/ops", Run: func(p []int, m []vsched.ChoicePoint) explore.Outcome { return c01Ops(p, mode) },
+			Doc: "one CallTool held in flight || ListResources, ListTools, ListPrompts (twice each), GetPrompt, ReadResource on the same client"})
+	}
 }
 
 func c01Run(prefix []int, cfg c01Cfg) explore.Outcome {
